@@ -307,35 +307,10 @@ func (sc *c07Scenario) Run(s *simrt.Sim) {
 	for _, ops := range sc.Producers {
 		total += len(ops)
 	}
-	// Passive phase: with channelCapacity>=1 a consumer that is blocked in a plain Take must be served by
-	// the loader without anybody calling the queue again (every Take posted a wake-up when it started,
-	// every buffered Offer posts one).
-	if sc.Kind == "buffered" && sc.Cap >= 1 && prodDone() {
-		blockedTaker := func() bool {
-			for c, th := range cons {
-				if !th.Done() && th.Blocked() && curOp[c] != nil {
-					return true
-				}
-			}
-			return false
-		}
-		// first let every consumer finish its script or come to rest in a blocking Take
-		s.WaitUntilTimeout(func() bool {
-			for c, th := range cons {
-				if !th.Done() && !(th.Blocked() && curOp[c] != nil) {
-					return false
-				}
-			}
-			return true
-		}, 5*time.Second)
-		if blockedTaker() && remaining() > 0 {
-			sc.probes["passive-drain-phase"]++
-			if !s.WaitUntilTimeout(func() bool { return !blockedTaker() || remaining() == 0 }, 60*(sc.LoadDur+sc.FreeDur)+time.Second) {
-				sc.extra = append(sc.extra, Violation{Clause: "stranded", Fingerprint: "buffered:item-inside-while-a-Take-is-blocked",
-					Detail: fmt.Sprintf("%d accepted value(s) stayed inside although a consumer is blocked in Take() (capacity %d): the loader was never woken; %s", remaining(), sc.Cap, histString(h))})
-			}
-		}
-	}
+	// (A "passive drain" clause — a consumer blocked in a plain Take must be served without anybody
+	// calling the queue again — was tried here and REMOVED: the property only promises that *repeated*
+	// Take/Poll calls retrieve everything, and the unchanged code can legitimately waste a wake-up when
+	// the loader's pass falls between a Take's notify and its receive. See DESIGN.md §9.)
 	// Settle: keep receiving (fairly scheduled) until every accepted value came out. While producers
 	// are still working through their pauses only virtual time bounds the loop; once they are done
 	// the number of further attempts is bounded, far above any legal latency.
